@@ -571,3 +571,17 @@ def cases(tier, seed):
                 add("sym.ge_locc", base, ic2)
                 add("sym.frame", base, icl("sym/level2", 2, 3, field, "frame-" + rep))
     return out
+
+
+# =============================================================================================
+# deductive part (prover side, E2 frame obligations) -- main agent
+# =============================================================================================
+from props.C12_prove import prove  # noqa: E402,F401
+
+LEVEL = "other"
+ENGINES = ["E2-frame", "E3-E4-rtc"]
+LEVEL_TEXT = ("Mixed. Proved (E2): symmetric_extension_hierarchy and ppt_distinguishability write through no reference reachable from their arguments (the caller's "
+              "list of states is not modified). The value relations (PPT <= global, >= LOCC, primal = dual, Bell states, invariances, level 1 = PPT, monotone in the level) "
+              "are bounded run-time contract checks with exact feasibility certificates.")
+EXPLANATION = LEVEL_TEXT
+TECHNIQUE = "frame clause by taint analysis of the real AST (E2) + bounded run-time-checked contracts with certificates"
